@@ -26,7 +26,10 @@ def run(ctx):
     st, tr, dinfo, _ = L.design(ctx, by_name, with_guard=False)
     tot, samples = L.replay(ctx, files, "both", ["C11."], explore_bound=0, maxcalls=300000 if q else 600000,
                             nwalks=15 if q else 60, walklen=50 if q else 120, maxpar=8 if q else 12)
-    curved = [] if L.skip("fixtures") else L.curved_files(ctx, 2 if q else 30)
+    # curved worlds: spheres / cylinders, and (nonsimple) cones / ellipsoids under arbitrary rotations, i.e.
+    # kx/ky/kz, sq, gq surfaces bounding BACKGROUND volumes at up to three levels
+    curved = [] if L.skip("fixtures") else (L.curved_files(ctx, 1 if q else 15)
+                                            + L.curved_files(ctx, 3 if q else 30, nonsimple=True))
     ftot, fsamples = L.fixtures(ctx, ["C11."], nrays=0, nwalks=100 if q else 2000,
                                 nprobes=250 if q else 12000, maxpar=8 if q else 12, nshards=6 if q else 12,
                                 extra_files=curved)
@@ -45,7 +48,7 @@ def run(ctx):
                                          "truncated_worlds", "other_clauses")},
         "lattice_worlds": len(files), "curved_worlds": len(curved),
         "fixtures": {"fixtures": ftot["fixtures"], "safety_calls": fs.get("Safety", 0), "rays": fs.get("rays", 0),
-                     "sphere_points": fs.get("sphere_pts", 0), "discarded": ftot["discarded"], "skipped": ftot["skipped"],
+                     "sphere_points": fs.get("sphere_pts", 0), "confirmed_nearest_boundary_bounds": fs.get("near_bounds", 0), "discarded": ftot["discarded"], "skipped": ftot["skipped"],
                      "other_clauses": ftot["other_clauses"]},
     })
     if st:
@@ -56,6 +59,10 @@ def run(ctx):
     ctx.assumptions += [
         "lattice worlds as in C03 (interior points = cell centres); true distance = exact distance to the nearest unit cell "
         "with a different volume path or to the world boundary",
+        "fixtures and seeded curved worlds (incl. cones / ellipsoids = surfaces without a simple safety, bounding background "
+        "volumes): besides random probes, planned probes near the surrounding surfaces with rays aimed at the nearest surface "
+        "points; s must not exceed any confirmed upper bound of the true boundary distance (closest-point iteration of the "
+        "oracle + point location beyond the surface point), nor may any sphere point (64 directions + aimed ones) leave the volume",
         "fixtures: a ray 'travels at least the safety' is judged with relative tolerance 1e-9; sphere radius s(1-1e-6); "
         "oracle points within 1e-6 of a surface are discarded",
         "other-property clauses (C03.*) seen in the same traces are reported by C03, not here",
